@@ -609,6 +609,13 @@ theorem step_waiters (s : State) (op : Op) (h : Waiters s) : Waiters (step s op)
         split
         · exact dropCheckout_waiters h r
         · exact h
+  | cancelOff r =>
+    simp only [step]
+    cases hh : s.held r with
+    | some p =>
+      simp only []
+      exact abortTask_waiters ((h.mono (WMono.of_eq (s' := { s with held := upd s.held r none }) rfl rfl rfl rfl)).mono (dropPooled_wmono _ p)) _
+    | none => exact h
   | dialDone r o =>
     simp only [step]
     split
